@@ -246,6 +246,15 @@ def run_case(case):
             nargs = [rng.choice([np.int64, np.int32, np.intp])(x) for x in n]
             largs = [np.int64(x) if float(x).is_integer() and rng.random() < 0.7 else np.float64(x) for x in Ls]
         cov['NL_argument_style:' + style] = 1
+        # a twin built from the same numbers is used up first (its coordinate arrays are overwritten in place, e.g. by a user who
+        # shifts the origin of THAT grid): the grid built next from the same numbers is exact all the same
+        twin = getattr(pf, cls)(*(nargs + largs))
+        for part in ('cellsize', 'cellcenters', 'facecenters'):
+            for k in range(nd):
+                arr_ = getattr(getattr(twin, part), ['_x', '_y', '_z'][k])
+                if isinstance(arr_, np.ndarray) and arr_.flags.writeable:
+                    arr_[...] = arr_ * 3.0 + 2.5
+        cov['twin_with_same_arguments_scribbled'] = 1
         m = getattr(pf, cls)(*(nargs + largs))
         faces = [np.arange(n[k] + 1) * (Ls[k] / n[k]) for k in range(nd)]
         bad = check_mesh(m, cls, faces, 'NL')
@@ -264,6 +273,18 @@ def run_case(case):
         key = '%s/NL/%s/%s' % (cls, n, ['%.3g' % x for x in Ls])
         sample = {'form': 'NL', 'cls': cls, 'N': n, 'L': Ls}
         nontrivial = True
+    # a volume array the caller keeps is the caller's: reading the volumes of ANOTHER grid of the same class and shape (other
+    # lengths) does not rewrite it
+    try:
+        keepV = m.cellvolume
+        snapV = np.array(np.asarray(keepV), copy=True)
+        sib = getattr(pf, cls)(*[np.asarray(f, dtype=float) * (1.7 if AXKIND[cls][k_] in ('len', 'rad') else 0.9) for k_, f in enumerate(faces)])
+        np.asarray(sib.cellvolume)
+        cov['kept_volume_probes'] = 1
+        if not np.array_equal(np.asarray(keepV), snapV):
+            bad.append(('volume-rewritten', 'the cellvolume array of one %s changed when the cellvolume of another grid of the same shape was read' % cls))
+    except Exception as e_:
+        bad.append(('volume-rewritten', 'kept-volume probe raised %s' % type(e_).__name__))
     cov['labels_checked'] = 24
     if bad:
         mechs = sorted(set(b[0] for b in bad))
